@@ -21,9 +21,15 @@ _NUM = (int, bool, SymInt, SymBool)
 def _is_state_value(v):
     if isinstance(v, _NUM) or v is None:
         return True                      # None: a state attribute that has not been given a number yet ('no previous value')
-    if isinstance(v, list) and all(isinstance(e, _NUM) for e in v):
+    if isinstance(v, list) and all(isinstance(e, _NUM) or e is None for e in v):
         return True                      # (an empty list counts: capture buffers start empty)
+    if isinstance(v, dict) and all(isinstance(k, (int, str, tuple, bool)) and (isinstance(e, _NUM) or e is None) for k, e in v.items()):
+        return True                      # small caches / tables keyed by concrete values
     return False
+
+
+def _copy_state(v):
+    return list(v) if isinstance(v, list) else (dict(v) if isinstance(v, dict) else v)
 
 
 class Region:
@@ -40,7 +46,7 @@ class Region:
             d = {}
             for k, v in o.__dict__.items():
                 if _is_state_value(v):
-                    d[k] = list(v) if isinstance(v, list) else v
+                    d[k] = _copy_state(v)
             attrs.append(d)
         wv = [(w.value, w.__dict__.get('next', MISSING)) for w in self.wires]
         ex = [getattr(o, a, MISSING) for o, a in self.extra]
@@ -52,7 +58,7 @@ class Region:
             for k in [k for k, v in o.__dict__.items() if _is_state_value(v) and k not in d]:
                 del o.__dict__[k]
             for k, v in d.items():
-                o.__dict__[k] = list(v) if isinstance(v, list) else v
+                o.__dict__[k] = _copy_state(v)
         for w, (v, n) in zip(self.wires, wv):
             w.value = v
             if n is MISSING:
